@@ -174,6 +174,30 @@ Definition closefree_shape_ok : bool :=
   before KSetClosing KConnWriteFrame src_Channel_close_channel &&
   before KConnWriteFrame KSetClosed src_Channel_close_channel.
 
+(* ---- C11 (last clause): Connection.close() follows the same protocol as Channel.close():
+        "neither closed nor closing" is read and the move to CLOSING made in one step under the
+        connection's close lock; Connection.Close is sent once, only by the caller for whom that
+        reading was true, after the move; every caller ends with CLOSED in the finally block ---- *)
+Definition connclose_shape_ok : bool :=
+  has_sublist [TWith LClose; TCall KTestClosed; TCall KTestClosing; TCall KIfWasOpen; TIf;
+               TCall KSetClosing; TEndIf; TEndWith] src_Connection_close tok_eqb &&
+  once KSetClosing src_Connection_close && once KSendConnClose src_Connection_close &&
+  has_sublist [TCall KIfWasOpen; TIf; TCall KSendConnClose; TEndIf] src_Connection_close tok_eqb &&
+  before KSetClosing KSendConnClose src_Connection_close &&
+  in_finally KSetClosed 0 src_Connection_close.
+
+(* ---- C07: a queued error is read and then removed BY VALUE (one list operation that fails when
+        another thread has taken it), both inside a try whose handler returns; the raise follows ---- *)
+Definition excs_shape_ok : bool :=
+  let toks := src_Channel_check_for_exceptions in
+  once KExcHead toks && once KExcRemove toks && absent KExcPop toks &&
+  before KExcHead KExcRemove toks &&
+  has_sublist [TCall KExcRemove; TEndIf; TExcept; TReturn; TEndTry; TRaise] toks tok_eqb &&
+  match tok_index TTry toks, index_of KExcHead toks with
+  | Some i, Some j => Nat.ltb i j
+  | _, _ => false
+  end.
+
 (* ---- C10: number chosen, registered and opened under Connection.lock ---- *)
 Definition alloc_shape_ok : bool :=
   all_under LConn KNextId src_Connection_channel &&
